@@ -219,3 +219,50 @@ def gen_memo(ctx: core.Ctx, rel="py/formak/cpp.py"):
             for w_ in ws:
                 ctx.error(f"GEN-MEMO: {rel}:{w_.line} {q} stores on the instance (`{w_.text[:70]}`): not an enumerated idiom (memo with a whole-parameter key)")
     ctx.floor("GEN-MEMO", n, 15, "generator methods other than __init__")
+    if not isinstance(ctx, _MemoProbe):
+        # expected number of memo entries on today's tree is zero: the recogniser must fire on a built-in positive example on every run
+        pr = _MemoProbe()
+        gen_memo(pr, "<positive example>")
+        if not pr.failed or pr.errors:
+            ctx.error(f"GEN-MEMO: built-in positive example not recognised ({pr.failed}, {pr.errors})")
+        else:
+            ctx.note("GEN-MEMO: built-in positive example (cache keyed by sorted(mapping)) recognised")
+
+
+class _MemoProbe:
+    """stands in for the context when gen_memo is run on its built-in positive example"""
+    SRC = (
+        "class G:\n"
+        "    def __init__(self):\n"
+        "        self._c = {}\n"
+        "    def emit(self, name, mapping):\n"
+        "        k = tuple(sorted(mapping))\n"
+        "        if k not in self._c:\n"
+        "            self._c[k] = list(self.impl(mapping))\n"
+        "        return self._c[k]\n"
+        "    def impl(self, mapping):\n"
+        "        for a, b in mapping.items():\n"
+        "            yield a, b\n")
+
+    def __init__(self):
+        self.failed, self.errors = [], []
+
+    def parse(self, rel):
+        import ast
+        return ast.parse(self.SRC)
+
+    def rule(self, *a, **k):
+        pass
+
+    def floor(self, *a, **k):
+        pass
+
+    def note(self, *a, **k):
+        pass
+
+    def error(self, msg):
+        self.errors.append(msg)
+
+    def oblige(self, rule, where, what, ok, **k):
+        if not ok:
+            self.failed.append(where)
